@@ -33,6 +33,7 @@ use crate::database::timing::{
     RECORD_BUILD_NS, STORAGE_LOCK_NS, TXN_LOOKUP_NS, WAL_FLUSH_NS,
 };
 use crate::database::Database;
+use crate::schema::table::Constraint;
 use crate::storage::{TableFileHeader, WalStoragePerTable, DEFAULT_SCHEMA};
 use crate::types::{create_record_schema, OwnedValue};
 use eyre::{bail, Result, WrapErr};
@@ -92,6 +93,30 @@ impl Database {
             let root = if stored_root > 0 { stored_root } else { 1 };
             (root, if hint > 0 { Some(hint) } else { Some(root) })
         };
+
+        // AUTO_INCREMENT column: same rules as INSERT. The counter is stored before the rows
+        // are, so that a value handed out is never generated again.
+        let auto_increment_col = columns
+            .iter()
+            .position(|c| c.has_constraint(&Constraint::AutoIncrement));
+        let numbered_rows: Option<Vec<Vec<OwnedValue>>> = match auto_increment_col {
+            Some(col) => {
+                let storage_arc = file_manager.table_data_mut(schema_name, table_name)?;
+                let mut storage = storage_arc.write();
+                let header = TableFileHeader::from_bytes_mut(storage.page_mut(0)?)?;
+                let mut counter = header.auto_increment();
+                let mut numbered = rows.to_vec();
+                for row in &mut numbered {
+                    Self::apply_auto_increment(row, col, &mut counter)?;
+                }
+                if counter > header.auto_increment() {
+                    header.set_auto_increment(counter);
+                }
+                Some(numbered)
+            }
+            None => None,
+        };
+        let rows = numbered_rows.as_deref().unwrap_or(rows);
 
         let table_file_key =
             crate::storage::FileManager::make_table_key(schema_name, table_name);
@@ -504,22 +529,26 @@ impl Database {
             (DEFAULT_SCHEMA, table)
         };
 
-        let record_schema = {
+        let (record_schema, auto_increment_col) = {
             let catalog_guard = self.shared.catalog.read();
             let catalog = catalog_guard.as_ref().unwrap();
             let table_def = catalog.resolve_table_in_schema(Some(schema_name), table_name)?;
-            create_record_schema(table_def.columns())
+            let auto_increment_col = table_def
+                .columns()
+                .iter()
+                .position(|c| c.has_constraint(&Constraint::AutoIncrement));
+            (create_record_schema(table_def.columns()), auto_increment_col)
         };
 
         let mut file_manager_guard = self.shared.file_manager.write();
         let file_manager = file_manager_guard.as_mut().unwrap();
         let storage_arc = file_manager.table_data_mut(schema_name, table_name)?;
 
-        let root_page = {
+        let (root_page, mut auto_increment) = {
             let storage = storage_arc.write();
             let page = storage.page(0)?;
             let header = TableFileHeader::from_bytes(page)?;
-            header.root_page()
+            (header.root_page(), header.auto_increment())
         };
         // Row keys come from the database-wide counter (the loader pre-increments). Deriving
         // them from the table's row count collided with existing keys after deletes and left
@@ -537,8 +566,14 @@ impl Database {
         // Rows stored before a failing one remain (see fast_load.rs), so the header below
         // is written on the error path too.
         let mut load_result = Ok(());
-        for row in rows {
-            if let Err(e) = loader.insert_unchecked(&row) {
+        for mut row in rows {
+            // AUTO_INCREMENT column: same rules as INSERT
+            let stored = match auto_increment_col {
+                Some(col) => Self::apply_auto_increment(&mut row, col, &mut auto_increment),
+                None => Ok(()),
+            }
+            .and_then(|()| loader.insert_unchecked(&row));
+            if let Err(e) = stored {
                 load_result = Err(e);
                 break;
             }
@@ -549,6 +584,9 @@ impl Database {
         {
             let page = storage.page_mut(0)?;
             let header = TableFileHeader::from_bytes_mut(page)?;
+            if auto_increment > header.auto_increment() {
+                header.set_auto_increment(auto_increment);
+            }
             header.set_root_page(stats.root_page);
             if let Some(hint) = stats.rightmost_hint {
                 header.set_rightmost_hint(hint);
@@ -559,6 +597,30 @@ impl Database {
 
         load_result?;
         Ok(stats.row_count)
+    }
+
+    /// AUTO_INCREMENT rules of INSERT for one row of a bulk path: a NULL value is generated
+    /// from `counter`, an explicit value above `counter` raises it.
+    fn apply_auto_increment(row: &mut [OwnedValue], col: usize, counter: &mut u64) -> Result<()> {
+        match row.get(col) {
+            Some(OwnedValue::Null) => {
+                *counter = counter.checked_add(1).ok_or_else(|| {
+                    eyre::eyre!("auto_increment overflow: exceeded maximum value")
+                })?;
+                row[col] = OwnedValue::Int(*counter as i64);
+            }
+            Some(OwnedValue::Int(provided)) => {
+                if *provided < 0 {
+                    bail!(
+                        "auto_increment column cannot have negative value: {}",
+                        provided
+                    );
+                }
+                *counter = (*counter).max(*provided as u64);
+            }
+            _ => {}
+        }
+        Ok(())
     }
 
     /// Registers a row stored by the open transaction so that COMMIT unlocks it and
